@@ -176,38 +176,87 @@ fn get_string_value(this: &JsValue) -> Result<JsString, JsError> {
     }
 }
 
+/// ToIntegerOrInfinity of argument `i`; a missing or `undefined` argument gives `default`.
+/// Objects are converted with valueOf/toString.
+fn integer_arg(
+    interp: &mut Interpreter,
+    args: &[JsValue],
+    i: usize,
+    default: f64,
+) -> Result<f64, JsError> {
+    match args.get(i) {
+        None | Some(JsValue::Undefined) => Ok(default),
+        Some(v) => {
+            let n = interp.coerce_to_number(v)?;
+            Ok(if n.is_nan() { 0.0 } else { math::trunc(n) })
+        }
+    }
+}
+
+/// Clamp a position to 0..=len
+fn clamp_position(n: f64, len: usize) -> usize {
+    if n <= 0.0 {
+        0
+    } else if n >= len as f64 {
+        len
+    } else {
+        n as usize
+    }
+}
+
+/// A relative index (negative counts from the end) clamped to 0..=len
+fn relative_position(n: f64, len: usize) -> usize {
+    if n < 0.0 {
+        clamp_position(len as f64 + n, len)
+    } else {
+        clamp_position(n, len)
+    }
+}
+
+/// The search string of indexOf/includes/...: a missing argument is the string "undefined"
+fn search_string_arg(interp: &mut Interpreter, args: &[JsValue]) -> Result<Vec<char>, JsError> {
+    let v = args.first().cloned().unwrap_or(JsValue::Undefined);
+    Ok(interp.coerce_to_string(&v)?.as_str().chars().collect())
+}
+
+/// First position >= from at which `needle` occurs in `hay` (positions count characters)
+fn find_chars(hay: &[char], needle: &[char], from: usize) -> Option<usize> {
+    if needle.len() > hay.len() {
+        return None;
+    }
+    (from..=hay.len() - needle.len()).find(|&i| hay.get(i..i + needle.len()) == Some(needle))
+}
+
+/// Last position <= from at which `needle` occurs in `hay`
+fn rfind_chars(hay: &[char], needle: &[char], from: usize) -> Option<usize> {
+    if needle.len() > hay.len() {
+        return None;
+    }
+    let last = from.min(hay.len() - needle.len());
+    (0..=last)
+        .rev()
+        .find(|&i| hay.get(i..i + needle.len()) == Some(needle))
+}
+
+fn string_from_chars(chars: &[char]) -> Guarded {
+    Guarded::unguarded(JsValue::String(JsString::from(
+        chars.iter().collect::<String>(),
+    )))
+}
+
 pub fn string_char_at(
     interp: &mut Interpreter,
     this: JsValue,
     args: &[JsValue],
 ) -> Result<Guarded, JsError> {
-    let s = interp.to_js_string(&this);
-    // ToInteger: convert to number (with ToPrimitive for objects), then truncate towards zero
-    let index_num = if let Some(v) = args.first() {
-        interp.coerce_to_number(v)?
-    } else {
-        0.0
-    };
-
-    // Handle NaN -> 0, otherwise truncate
-    let index = if index_num.is_nan() {
-        0i64
-    } else {
-        math::trunc(index_num) as i64
-    };
-
-    // Negative or out of bounds -> empty string
-    if index < 0 || index as usize >= s.as_str().chars().count() {
-        return Ok(Guarded::unguarded(JsValue::String(JsString::from(""))));
+    let chars: Vec<char> = interp.to_js_string(&this).as_str().chars().collect();
+    let index = integer_arg(interp, args, 0, 0.0)?;
+    if index < 0.0 || index >= chars.len() as f64 {
+        return Ok(string_from_chars(&[]));
     }
-
-    if let Some(ch) = s.as_str().chars().nth(index as usize) {
-        Ok(Guarded::unguarded(JsValue::String(JsString::from(
-            ch.to_string(),
-        ))))
-    } else {
-        Ok(Guarded::unguarded(JsValue::String(JsString::from(""))))
-    }
+    Ok(string_from_chars(
+        chars.get(index as usize..index as usize + 1).unwrap_or(&[]),
+    ))
 }
 
 pub fn string_index_of(
@@ -215,28 +264,12 @@ pub fn string_index_of(
     this: JsValue,
     args: &[JsValue],
 ) -> Result<Guarded, JsError> {
-    let s = interp.to_js_string(&this);
-    let search = match args.first() {
-        Some(v) => interp.to_js_string(v),
-        None => interp.intern(""),
-    };
-    let from_index = args.get(1).map(|v| v.to_number() as usize).unwrap_or(0);
-
-    if from_index >= s.len() {
-        return Ok(Guarded::unguarded(JsValue::Number(-1.0)));
-    }
-
-    // Use get() for safe slicing - from_index is validated above to be < len
-    match s
-        .as_str()
-        .get(from_index..)
-        .and_then(|slice| slice.find(search.as_str()))
-    {
-        Some(pos) => Ok(Guarded::unguarded(JsValue::Number(
-            (from_index + pos) as f64,
-        ))),
-        None => Ok(Guarded::unguarded(JsValue::Number(-1.0))),
-    }
+    let hay: Vec<char> = interp.to_js_string(&this).as_str().chars().collect();
+    let needle = search_string_arg(interp, args)?;
+    let from = clamp_position(integer_arg(interp, args, 1, 0.0)?, hay.len());
+    Ok(Guarded::unguarded(JsValue::Number(
+        find_chars(&hay, &needle, from).map_or(-1.0, |p| p as f64),
+    )))
 }
 
 pub fn string_last_index_of(
@@ -244,42 +277,23 @@ pub fn string_last_index_of(
     this: JsValue,
     args: &[JsValue],
 ) -> Result<Guarded, JsError> {
-    let s = interp.to_js_string(&this);
-    let search = match args.first() {
-        Some(v) => interp.to_js_string(v),
-        None => interp.intern(""),
-    };
-    let len = s.len();
-
-    // Default from_index is length of string
-    let from_index = if let Some(arg) = args.get(1) {
-        let n = arg.to_number();
-        if n.is_nan() {
-            len
-        } else {
-            (n as isize).max(0) as usize
+    let hay: Vec<char> = interp.to_js_string(&this).as_str().chars().collect();
+    let needle = search_string_arg(interp, args)?;
+    // the position is ToNumber'ed; NaN (and a missing argument) means "from the end"
+    let from = match args.get(1) {
+        None | Some(JsValue::Undefined) => hay.len(),
+        Some(v) => {
+            let n = interp.coerce_to_number(v)?;
+            if n.is_nan() {
+                hay.len()
+            } else {
+                clamp_position(math::trunc(n), hay.len())
+            }
         }
-    } else {
-        len
     };
-
-    // Empty search string returns from_index clamped to length
-    if search.is_empty() {
-        return Ok(Guarded::unguarded(JsValue::Number(
-            from_index.min(len) as f64
-        )));
-    }
-
-    // Search backwards from from_index
-    let search_end = (from_index + search.len()).min(len);
-    match s
-        .as_str()
-        .get(..search_end)
-        .and_then(|slice| slice.rfind(search.as_str()))
-    {
-        Some(pos) => Ok(Guarded::unguarded(JsValue::Number(pos as f64))),
-        None => Ok(Guarded::unguarded(JsValue::Number(-1.0))),
-    }
+    Ok(Guarded::unguarded(JsValue::Number(
+        rfind_chars(&hay, &needle, from).map_or(-1.0, |p| p as f64),
+    )))
 }
 
 pub fn string_at(
@@ -287,28 +301,19 @@ pub fn string_at(
     this: JsValue,
     args: &[JsValue],
 ) -> Result<Guarded, JsError> {
-    let s = interp.to_js_string(&this);
-    let len = s.len() as isize;
-    let index = if let Some(v) = args.first() {
-        interp.coerce_to_number(v)? as isize
+    let chars: Vec<char> = interp.to_js_string(&this).as_str().chars().collect();
+    let index = integer_arg(interp, args, 0, 0.0)?;
+    let actual = if index < 0.0 {
+        chars.len() as f64 + index
     } else {
-        0
+        index
     };
-
-    // Handle negative indices
-    let actual_index = if index < 0 { len + index } else { index };
-
-    if actual_index < 0 || actual_index >= len {
+    if actual < 0.0 || actual >= chars.len() as f64 {
         return Ok(Guarded::unguarded(JsValue::Undefined));
     }
-
-    let char_at = s.as_str().chars().nth(actual_index as usize);
-    match char_at {
-        Some(c) => Ok(Guarded::unguarded(JsValue::String(JsString::from(
-            c.to_string(),
-        )))),
-        None => Ok(Guarded::unguarded(JsValue::Undefined)),
-    }
+    Ok(string_from_chars(
+        chars.get(actual as usize..actual as usize + 1).unwrap_or(&[]),
+    ))
 }
 
 pub fn string_includes(
@@ -316,22 +321,11 @@ pub fn string_includes(
     this: JsValue,
     args: &[JsValue],
 ) -> Result<Guarded, JsError> {
-    let s = interp.to_js_string(&this);
-    let search = match args.first() {
-        Some(v) => interp.to_js_string(v),
-        None => interp.intern(""),
-    };
-    let from_index = args.get(1).map(|v| v.to_number() as usize).unwrap_or(0);
-
-    if from_index >= s.len() {
-        return Ok(Guarded::unguarded(JsValue::Boolean(search.is_empty())));
-    }
-
+    let hay: Vec<char> = interp.to_js_string(&this).as_str().chars().collect();
+    let needle = search_string_arg(interp, args)?;
+    let from = clamp_position(integer_arg(interp, args, 1, 0.0)?, hay.len());
     Ok(Guarded::unguarded(JsValue::Boolean(
-        s.as_str()
-            .get(from_index..)
-            .map(|slice| slice.contains(search.as_str()))
-            .unwrap_or(false),
+        find_chars(&hay, &needle, from).is_some(),
     )))
 }
 
@@ -340,22 +334,11 @@ pub fn string_starts_with(
     this: JsValue,
     args: &[JsValue],
 ) -> Result<Guarded, JsError> {
-    let s = interp.to_js_string(&this);
-    let search = match args.first() {
-        Some(v) => interp.to_js_string(v),
-        None => interp.intern(""),
-    };
-    let position = args.get(1).map(|v| v.to_number() as usize).unwrap_or(0);
-
-    if position >= s.len() {
-        return Ok(Guarded::unguarded(JsValue::Boolean(search.is_empty())));
-    }
-
+    let hay: Vec<char> = interp.to_js_string(&this).as_str().chars().collect();
+    let needle = search_string_arg(interp, args)?;
+    let position = clamp_position(integer_arg(interp, args, 1, 0.0)?, hay.len());
     Ok(Guarded::unguarded(JsValue::Boolean(
-        s.as_str()
-            .get(position..)
-            .map(|slice| slice.starts_with(search.as_str()))
-            .unwrap_or(false),
+        hay.get(position..position + needle.len()) == Some(needle.as_slice()),
     )))
 }
 
@@ -364,23 +347,12 @@ pub fn string_ends_with(
     this: JsValue,
     args: &[JsValue],
 ) -> Result<Guarded, JsError> {
-    let s = interp.to_js_string(&this);
-    let search = match args.first() {
-        Some(v) => interp.to_js_string(v),
-        None => interp.intern(""),
-    };
-    let end_position = args
-        .get(1)
-        .map(|v| v.to_number() as usize)
-        .unwrap_or(s.len());
-
-    let end = end_position.min(s.len());
-    Ok(Guarded::unguarded(JsValue::Boolean(
-        s.as_str()
-            .get(..end)
-            .map(|slice| slice.ends_with(search.as_str()))
-            .unwrap_or(false),
-    )))
+    let hay: Vec<char> = interp.to_js_string(&this).as_str().chars().collect();
+    let needle = search_string_arg(interp, args)?;
+    let end = clamp_position(integer_arg(interp, args, 1, hay.len() as f64)?, hay.len());
+    let result = needle.len() <= end
+        && hay.get(end - needle.len()..end) == Some(needle.as_slice());
+    Ok(Guarded::unguarded(JsValue::Boolean(result)))
 }
 
 pub fn string_slice(
@@ -388,36 +360,13 @@ pub fn string_slice(
     this: JsValue,
     args: &[JsValue],
 ) -> Result<Guarded, JsError> {
-    let s = interp.to_js_string(&this);
-    let len = s.len() as i64;
-
-    let start_arg = args.first().map(|v| v.to_number() as i64).unwrap_or(0);
-    let end_arg = args.get(1).map(|v| v.to_number() as i64).unwrap_or(len);
-
-    let start = if start_arg < 0 {
-        (len + start_arg).max(0)
-    } else {
-        start_arg.min(len)
-    } as usize;
-    let end = if end_arg < 0 {
-        (len + end_arg).max(0)
-    } else {
-        end_arg.min(len)
-    } as usize;
-
-    if start >= end {
-        return Ok(Guarded::unguarded(JsValue::String(JsString::from(""))));
-    }
-
-    // Need to handle UTF-8 properly - slice by characters, not bytes
-    let chars: Vec<char> = s.as_str().chars().collect();
-    let start_clamped = start.min(chars.len());
-    let end_clamped = end.min(chars.len());
-    let result: String = chars
-        .get(start_clamped..end_clamped)
-        .map(|slice| slice.iter().collect())
-        .unwrap_or_default();
-    Ok(Guarded::unguarded(JsValue::String(JsString::from(result))))
+    let chars: Vec<char> = interp.to_js_string(&this).as_str().chars().collect();
+    let len = chars.len();
+    let start = relative_position(integer_arg(interp, args, 0, 0.0)?, len);
+    let end = relative_position(integer_arg(interp, args, 1, len as f64)?, len);
+    Ok(string_from_chars(
+        chars.get(start..end.max(start)).unwrap_or(&[]),
+    ))
 }
 
 pub fn string_substring(
@@ -425,39 +374,13 @@ pub fn string_substring(
     this: JsValue,
     args: &[JsValue],
 ) -> Result<Guarded, JsError> {
-    let s = interp.to_js_string(&this);
-    let len = s.len();
-
-    let start = args
-        .first()
-        .map(|v| {
-            let n = v.to_number();
-            if n.is_nan() { 0 } else { (n as usize).min(len) }
-        })
-        .unwrap_or(0);
-
-    let end = args
-        .get(1)
-        .map(|v| {
-            let n = v.to_number();
-            if n.is_nan() { 0 } else { (n as usize).min(len) }
-        })
-        .unwrap_or(len);
-
-    let (start, end) = if start > end {
-        (end, start)
-    } else {
-        (start, end)
-    };
-
-    let chars: Vec<char> = s.as_str().chars().collect();
-    let start_clamped = start.min(chars.len());
-    let end_clamped = end.min(chars.len());
-    let result: String = chars
-        .get(start_clamped..end_clamped)
-        .map(|slice| slice.iter().collect())
-        .unwrap_or_default();
-    Ok(Guarded::unguarded(JsValue::String(JsString::from(result))))
+    let chars: Vec<char> = interp.to_js_string(&this).as_str().chars().collect();
+    let len = chars.len();
+    let a = clamp_position(integer_arg(interp, args, 0, 0.0)?, len);
+    let b = clamp_position(integer_arg(interp, args, 1, len as f64)?, len);
+    Ok(string_from_chars(
+        chars.get(a.min(b)..a.max(b)).unwrap_or(&[]),
+    ))
 }
 
 /// String.prototype.substr(start, length?) - deprecated but still supported
@@ -466,45 +389,14 @@ pub fn string_substr(
     this: JsValue,
     args: &[JsValue],
 ) -> Result<Guarded, JsError> {
-    let s = interp.to_js_string(&this);
-    let chars: Vec<char> = s.as_str().chars().collect();
-    let len = chars.len() as i64;
-
-    // Get start index
-    let start_arg = args.first().map(|v| v.to_number()).unwrap_or(0.0);
-    let mut start = if start_arg.is_nan() {
-        0
-    } else {
-        start_arg as i64
-    };
-
-    // Negative start counts from end
-    if start < 0 {
-        start = (len + start).max(0);
-    }
-
-    // If start is beyond string length, return empty string
-    if start >= len {
-        return Ok(Guarded::unguarded(JsValue::String(JsString::from(""))));
-    }
-
-    // Get length (default: rest of string)
-    let length = args
-        .get(1)
-        .map(|v| {
-            let n = v.to_number();
-            if n.is_nan() || n < 0.0 { 0 } else { n as usize }
-        })
-        .unwrap_or((len - start) as usize);
-
-    let start_idx = start as usize;
-    let end_idx = (start_idx + length).min(chars.len());
-
-    let result: String = chars
-        .get(start_idx..end_idx)
-        .map(|slice| slice.iter().collect())
-        .unwrap_or_default();
-    Ok(Guarded::unguarded(JsValue::String(JsString::from(result))))
+    let chars: Vec<char> = interp.to_js_string(&this).as_str().chars().collect();
+    let len = chars.len();
+    let start = relative_position(integer_arg(interp, args, 0, 0.0)?, len);
+    let length = integer_arg(interp, args, 1, len as f64)?;
+    let end = clamp_position(start as f64 + length.max(0.0), len);
+    Ok(string_from_chars(
+        chars.get(start..end.max(start)).unwrap_or(&[]),
+    ))
 }
 
 pub fn string_to_lower_case(
@@ -571,7 +463,19 @@ pub fn string_split(
 
     let s = interp.to_js_string(&this);
     let separator_arg = args.first().cloned();
-    let limit = args.get(1).map(|v| v.to_number() as usize);
+    // limit: undefined means "no limit", anything else is ToUint32'ed
+    let limit = match args.get(1) {
+        None | Some(JsValue::Undefined) => None,
+        Some(v) => {
+            let n = interp.coerce_to_number(v)?;
+            Some(crate::value::to_uint32(n) as usize)
+        }
+    };
+    if limit == Some(0) {
+        let guard = interp.heap.create_guard();
+        let arr = interp.create_array_from(&guard, Vec::new());
+        return Ok(Guarded::with_guard(JsValue::Object(arr), guard));
+    }
 
     let parts: Vec<JsValue> = match separator_arg {
         // Per ECMAScript spec: if separator is undefined, return array containing original string
@@ -837,14 +741,10 @@ pub fn string_replace_all(
     args: &[JsValue],
 ) -> Result<Guarded, JsError> {
     let s = interp.to_js_string(&this);
-    let search = match args.first() {
-        Some(v) => interp.to_js_string(v),
-        None => interp.intern(""),
-    };
-    let replacement = match args.get(1) {
-        Some(v) => interp.to_js_string(v),
-        None => interp.intern(""),
-    };
+    // missing arguments are the string "undefined", as for every ToString'ed parameter
+    let search = interp.coerce_to_string(&args.first().cloned().unwrap_or(JsValue::Undefined))?;
+    let replacement =
+        interp.coerce_to_string(&args.get(1).cloned().unwrap_or(JsValue::Undefined))?;
 
     // Replace all occurrences
     Ok(Guarded::unguarded(JsValue::String(JsString::from(
@@ -852,37 +752,42 @@ pub fn string_replace_all(
     ))))
 }
 
+/// padStart / padEnd: the target length is ToLength'ed, the filler defaults to " " when it is
+/// missing or undefined; lengths count characters.
+fn pad_string(
+    interp: &mut Interpreter,
+    this: JsValue,
+    args: &[JsValue],
+    at_start: bool,
+) -> Result<Guarded, JsError> {
+    let s = interp.to_js_string(&this);
+    let target_length = integer_arg(interp, args, 0, 0.0)?;
+    let filler: Vec<char> = match args.get(1) {
+        None | Some(JsValue::Undefined) => vec![' '],
+        Some(v) => interp.coerce_to_string(v)?.as_str().chars().collect(),
+    };
+    let current_len = s.as_str().chars().count();
+    if target_length <= current_len as f64 || filler.is_empty() {
+        return Ok(Guarded::unguarded(JsValue::String(s)));
+    }
+    if target_length > crate::value::MAX_STRING_LENGTH as f64 {
+        return Err(JsError::range_error("Invalid string length"));
+    }
+    let pad_len = target_length as usize - current_len;
+    let padding: String = filler.iter().cycle().take(pad_len).collect();
+    Ok(Guarded::unguarded(JsValue::String(JsString::from(if at_start {
+        format!("{}{}", padding, s.as_str())
+    } else {
+        format!("{}{}", s.as_str(), padding)
+    }))))
+}
+
 pub fn string_pad_start(
     interp: &mut Interpreter,
     this: JsValue,
     args: &[JsValue],
 ) -> Result<Guarded, JsError> {
-    let s = interp.to_js_string(&this);
-    let target_length = args.first().map(|v| v.to_number()).unwrap_or(0.0);
-    if target_length > crate::value::MAX_STRING_LENGTH as f64 {
-        return Err(JsError::range_error("Invalid string length"));
-    }
-    let target_length = target_length as usize;
-    let pad_string = match args.get(1) {
-        Some(v) => interp.to_js_string(v),
-        None => interp.intern(" "),
-    };
-
-    let current_len = s.as_str().chars().count();
-    if current_len >= target_length || pad_string.is_empty() {
-        return Ok(Guarded::unguarded(JsValue::String(s)));
-    }
-
-    let pad_len = target_length - current_len;
-    let mut padding = String::new();
-    while padding.len() < pad_len {
-        padding.push_str(pad_string.as_str());
-    }
-    padding.truncate(pad_len);
-
-    Ok(Guarded::unguarded(JsValue::String(JsString::from(
-        format!("{}{}", padding, s.as_str()),
-    ))))
+    pad_string(interp, this, args, true)
 }
 
 pub fn string_pad_end(
@@ -890,32 +795,7 @@ pub fn string_pad_end(
     this: JsValue,
     args: &[JsValue],
 ) -> Result<Guarded, JsError> {
-    let s = interp.to_js_string(&this);
-    let target_length = args.first().map(|v| v.to_number()).unwrap_or(0.0);
-    if target_length > crate::value::MAX_STRING_LENGTH as f64 {
-        return Err(JsError::range_error("Invalid string length"));
-    }
-    let target_length = target_length as usize;
-    let pad_string = match args.get(1) {
-        Some(v) => interp.to_js_string(v),
-        None => interp.intern(" "),
-    };
-
-    let current_len = s.as_str().chars().count();
-    if current_len >= target_length || pad_string.is_empty() {
-        return Ok(Guarded::unguarded(JsValue::String(s)));
-    }
-
-    let pad_len = target_length - current_len;
-    let mut padding = String::new();
-    while padding.len() < pad_len {
-        padding.push_str(pad_string.as_str());
-    }
-    padding.truncate(pad_len);
-
-    Ok(Guarded::unguarded(JsValue::String(JsString::from(
-        format!("{}{}", s.as_str(), padding),
-    ))))
+    pad_string(interp, this, args, false)
 }
 
 pub fn string_concat(
@@ -936,18 +816,19 @@ pub fn string_char_code_at(
     args: &[JsValue],
 ) -> Result<Guarded, JsError> {
     let s = interp.to_js_string(&this);
-    let index = if let Some(v) = args.first() {
-        interp.coerce_to_number(v)? as usize
+    let index = integer_arg(interp, args, 0, 0.0)?;
+    let ch = if index < 0.0 || index >= MAX_SAFE_INDEX {
+        None
     } else {
-        0
+        s.as_str().chars().nth(index as usize)
     };
-
-    if let Some(ch) = s.as_str().chars().nth(index) {
-        Ok(Guarded::unguarded(JsValue::Number(ch as u32 as f64)))
-    } else {
-        Ok(Guarded::unguarded(JsValue::Number(f64::NAN)))
-    }
+    Ok(Guarded::unguarded(JsValue::Number(
+        ch.map_or(f64::NAN, |c| c as u32 as f64),
+    )))
 }
+
+/// Positions beyond this cannot index a string
+const MAX_SAFE_INDEX: f64 = 9007199254740992.0;
 
 /// ToUint16 abstract operation per ECMAScript spec
 /// Converts a number to a 16-bit unsigned integer (0-65535)
@@ -1028,20 +909,16 @@ pub fn string_code_point_at(
     args: &[JsValue],
 ) -> Result<Guarded, JsError> {
     let s = interp.to_js_string(&this);
-    let index = args.first().map(|v| v.to_number()).unwrap_or(0.0);
-
-    // Check for negative or non-integer index
-    if index < 0.0 || math::fract(index) != 0.0 {
-        return Ok(Guarded::unguarded(JsValue::Undefined));
-    }
-
-    let index = index as usize;
-    let chars: Vec<char> = s.as_str().chars().collect();
-
-    match chars.get(index) {
-        Some(&ch) => Ok(Guarded::unguarded(JsValue::Number(ch as u32 as f64))),
-        None => Ok(Guarded::unguarded(JsValue::Undefined)),
-    }
+    let index = integer_arg(interp, args, 0, 0.0)?;
+    let ch = if index < 0.0 || index >= MAX_SAFE_INDEX {
+        None
+    } else {
+        s.as_str().chars().nth(index as usize)
+    };
+    Ok(Guarded::unguarded(match ch {
+        Some(c) => JsValue::Number(c as u32 as f64),
+        None => JsValue::Undefined,
+    }))
 }
 
 /// String.prototype.match(regexp)
@@ -1483,10 +1360,8 @@ pub fn string_locale_compare(
     args: &[JsValue],
 ) -> Result<Guarded, JsError> {
     let s = interp.to_js_string(&this);
-    let compare_string = match args.first() {
-        Some(v) => interp.to_js_string(v),
-        None => interp.intern(""),
-    };
+    let compare_string =
+        interp.coerce_to_string(&args.first().cloned().unwrap_or(JsValue::Undefined))?;
 
     // Simple lexicographic comparison (locale-insensitive for now)
     let result = match s.as_str().cmp(compare_string.as_str()) {
